@@ -1411,6 +1411,11 @@ def _validate_patch_target(r: "Repo", repo_path: bytes, tree_path: bytes) -> byt
         verify_leading_dirs(tree_path, [], repo_path)
     except InvalidPathError:
         raise ValueError(f"refusing to write through symlink: {tree_path!r}")
+    if os.path.islink(fs_path):
+        # The target itself is a symlink: open(..., "wb") would follow it and
+        # write wherever it points (another tracked file, the control
+        # directory). git refuses such a patch as well ("wrong type").
+        raise ValueError(f"refusing to write through symlink: {tree_path!r}")
     return fs_path
 
 
